@@ -20,6 +20,7 @@ Round 8: 10 more (C01 C02 C03 C04 C05 C10 C14 C15 C16 C17) with a list of the di
 Round 9: 9 more (C06 C07 C08 C09 C11 C12 C13 C19 C20), same.
 Round 10: 11 more (C01 C02 C03 C04 C05 C10 C14 C15 C16 C17 C18). Round 11: 9 more (C06 C07 C08 C09 C11 C12 C13 C19 C20).
 Round 12: 11 more (C01 C02 C03 C04 C05 C10 C14 C15 C16 C17 C18). Round 13: 9 more (C06 C07 C08 C09 C11 C12 C13 C19 C20).
+Round 14: 10 more (C04 C05 C06 C07 C12 C13 C14 C18 C19 C20).
 Every returned change was re-confirmed in a new scratch worktree by
 `tools/confirm_seed.sh` / `confirm_seed_unit.sh` (patch applies, 33+9 tests pass with it, the
 demonstration fails with it and passes without it; for the two memory-ordering changes the
